@@ -487,7 +487,7 @@ func random(e *vlib.Env) vlib.Result {
 			res.Fail("channel-not-closed", "Close returned but an output channel was never closed (quiescent)")
 			res.Witness = d
 		}
-		if o, d := vlib.WaitClosed(rn.ConsumersDone(), vlib.WD); o == vlib.Stuck && !res.Failed() {
+		if o, d := vlib.WaitUntil(rn.ConsumersIdle, vlib.WD); o == vlib.Stuck && !res.Failed() {
 			res.Fail("channel-not-closed", "Close returned but a consumer never saw its channel closed (quiescent)")
 			res.Witness = d
 		}
